@@ -326,6 +326,26 @@ SpecCarried(kind, w) ==
   ELSE IF kind = "TxRecord" THEN LayoutFields("TxBody", w)
   ELSE LayoutFields(kind, w)
 
+\* The statement names the ONLY optional sections (multi-trace ids, caller identity, custom fields, version-2 HTTP-call
+\* details, message attributes; the flag-selected groups of SqlStep_3): every OTHER field the reference format carries
+\* comes back whatever the values of the other fields are.  So the set of fields the law demands back for an item is
+\* decided by the reference format at the item's content (the presence conditions above select the sections), and
+\* not only by what the bytes of the real writer happen to depend on at that content: a writer that stops carrying a
+\* field in some state (writes a constant in its place, normalises it away) is then answered by a read that does not
+\* restore it -- a rejected R -- and not merely by a carried set that differs from the transcription (drift).
+\* Guarded so that an object whose fields are not the transcribed ones (a renamed / retyped field) is never a TLC
+\* runtime error: then nothing is demanded on behalf of the reference format (the strict pass reports the drift).
+CondFields(kind) == CASE kind = "TxRecord" -> {"Mtid", "McallerPcode"}
+                      [] kind = "HttpcStepX" -> {"Version"}
+                      [] kind = "SqlStep_3" -> {"Opt"}
+                      [] OTHER -> {}
+RefCarried(kind, w) ==
+  IF kind \in KnownKinds /\ \A f \in CondFields(kind) : f \in DOMAIN w /\ IsInt(w[f])
+  THEN SpecCarried(kind, w) \cap DOMAIN w
+  ELSE {}
+\* what the law demands back: the fields the real writer's bytes depend on and the fields the reference format carries
+Demanded(kind, w, carried) == carried \cup RefCarried(kind, w)
+
 \* the documented defaulting of the transaction-record reader
 PostRead(kind, r) ==
   IF kind = "TxRecord" /\ "ErrorLevel" \in DOMAIN r /\ IsZeroInt(r.ErrorLevel) /\ ~IsZeroInt(r.Error)
